@@ -126,7 +126,15 @@ impl Life for FilterLife {
             None => false,
         }
     }
-    fn apply(&mut self, a: u64, _b: u64) -> (u64, bool) {
+    fn apply(&mut self, a: u64, b: u64) -> (u64, bool) {
+        // one operation in five on a filter that can delete is a delete (of a present or an absent
+        // element): histories with holes in the buckets
+        if b % 5 == 4 {
+            if let Some(got) = self.0.delete(a) {
+                // 3: nothing to delete, 4: one copy deleted; neither counts as an addition
+                return (3 + got as u64, false);
+            }
+        }
         match self.0.insert(a) {
             Ok(x) => (x as u64, true),
             Err(()) => (2, false),
